@@ -88,6 +88,37 @@ CLAIMED = {
         "(fractional VTB/TVTB powers raise ImportError, modelled as such); tolerances 1e-8 on relation checks.",
         "DESIGN.md section 5, C12",
     ),
+    "C07": (
+        "Coq/MathComp proofs about a hand-written executable model of SemanticPointer (operators dispatch on operand kind, "
+        "results as exact symbolic values), correspondence check over the operator x operand-kind x algebra x vocabulary table",
+        "Theorems for every commutative ring and all vectors: a*b binds the left operand on the left whichever method handles "
+        "it (reflected form exchanges back), +/- are element-wise in operand order, number scaling is the same on both sides, "
+        "division by zero is an error, negation, compare = <a,b>/sqrt(|a|^2|b|^2) with 0 for a zero scale, zero vector "
+        "normalises to itself, mse formula, inverses use the pointer's own algebra and keep its vocabulary, arrays rejected; "
+        "results carry the coerced vocabulary and the left operand's algebra. Immutability holds by construction in the model; "
+        "the implementation's read-only flag is exercised by the tie (write attempts, operand snapshots, constructor aliasing). "
+        "Tie: all operators/methods x number kinds (int, bool, float, np.float32/64, np.int64, 0-d array) x three algebras x "
+        "{vocabulary, none} x {name, none}, d in {4,9} (+3,5 HRR; thorough adds 1,16).",
+        "Trusted: Coq kernel + vm_compute; Model/SemPtr.v; number operands are integer-valued (model at Z); sqrt-valued results "
+        "compared through integer square roots; harness.",
+        "DESIGN.md section 5, C07",
+    ),
+    "C03": (
+        "Coq proofs (coerce_types is the LUB, Props/C11; SemanticPointer gate theorems) about a type-level model of operand "
+        "dispatch; exhaustive operand-matrix correspondence evaluated in Coq; history clause checked on the implementation",
+        "Theorems: two SemanticPointers are combined iff same vocabulary / one vocabulary-less / both vocabulary-less with the "
+        "same algebra; every rejection is SpaTypeError or TypeError and happens before any value (operations are gated first); "
+        "the result carries the operands' vocabulary, a vocabulary-less operand adopting the other's; dot/compare/mse are gated "
+        "too; bare arrays rejected by + - * /. For symbols and dynamic nodes every route ends in coerce_types (C11 theorems). "
+        "Tie: exhaustive matrix 8 operators x 20 operand descriptors squared (kinds: pointer with/without vocabulary incl. "
+        "other algebra/length, symbol typed/untyped, dynamic pointer, dynamic scalar, numbers, array) vs Model/Dispatch.v; "
+        "history clause: all sequences (length <= 2 quick / 3 thorough + random to 12) of a vocabulary-less pointer meeting "
+        "three vocabularies through +, *, dot, reflected +. Three defects found by this check were repaired in /repo.",
+        "Trusted: Coq kernel + vm_compute; Model/Dispatch.v is a specification-level decision table ('free' cells are "
+        "combinations the DSL does not implement); vocabulary-less pointers carry no dimensionality in their type, so their "
+        "length mismatches are not claimed; harness.",
+        "DESIGN.md section 5, C03",
+    ),
 }
 
 NOT_YET = "not yet built in this revision of /verif (design in DESIGN.md section 5); no check is claimed"
